@@ -5,7 +5,6 @@ import (
 	"math/rand"
 	"path/filepath"
 	"runtime"
-	"sync"
 	"time"
 
 	"github.com/diiyw/nodis/ds"
@@ -444,18 +443,11 @@ func (n *Nodis) Rename(key, dstKey string) error {
 		if key == dstKey {
 			return nil
 		}
-		dstMeta := tx.writeKey(dstKey, nil)
+		value := meta.value
 		tx.delKey(key)
-		if !dstMeta.isOk() {
-			dstMeta.RWMutex = new(sync.RWMutex)
-			dstMeta.key = ds.NewKey(dstKey, meta.key.Expiration)
-			n.store.mu.Lock()
-			if old, replaced := n.store.metadata.Set(dstKey, dstMeta); replaced && old != dstMeta {
-				old.unpersist(n.store.ss)
-			}
-			n.store.mu.Unlock()
-		}
-		dstMeta.setValue(meta.value)
+		dstMeta := tx.writeKey(dstKey, func() ds.Value { return value })
+		dstMeta.setValue(value)
+		dstMeta.state |= KeyStateModified
 		dstMeta.key.Expiration = meta.key.Expiration
 		n.signalModifiedKey(key, meta)
 		n.signalModifiedKey(dstKey, dstMeta)
@@ -477,15 +469,10 @@ func (n *Nodis) RenameNX(key, dstKey string) error {
 		if !meta.isOk() {
 			return errors.New("key does not exist")
 		}
+		value := meta.value
 		tx.delKey(key)
-		dstMeta.RWMutex = new(sync.RWMutex)
-		dstMeta.key = ds.NewKey(dstKey, meta.key.Expiration)
-		dstMeta.setValue(meta.value)
-		n.store.mu.Lock()
-		if old, replaced := n.store.metadata.Set(dstKey, dstMeta); replaced && old != dstMeta {
-			old.unpersist(n.store.ss)
-		}
-		n.store.mu.Unlock()
+		dstMeta = tx.newKey(dstMeta, dstKey, func() ds.Value { return value })
+		dstMeta.key.Expiration = meta.key.Expiration
 		n.signalModifiedKey(key, meta)
 		n.signalModifiedKey(dstKey, dstMeta)
 		n.notify(func() []patch.Op {
